@@ -268,4 +268,26 @@ B('D2-indexgo-append-dup-after', ['C09', 'C02'], 'index.py', '_IndexGOMixin.appe
   "        self._labels_mutable.append(value)\n        if self.__contains__(value): #type: ignore\n            raise KeyError(f'duplicate key append attempted: {value}')\n", 'D2', '_IndexGOMixin.append')
 N('D-reorder-directory-appends', ['C09', 'C03'], 'type_blocks.py', 'TypeBlocks.append',
   'self._index.append((block_idx, i))\n            self._dtypes.append(block.dtype)', 'self._dtypes.append(block.dtype)\n            self._index.append((block_idx, i))')
+# ---------------------------------------------------------------------------------- Bus (C17)
+B('BUS-get-unloaded', ['C17'], 'bus.py', 'Bus.get',
+  'return self.__getitem__(key)', 'return self._series.__getitem__(key)', 'B.bus-load', 'Bus.get')
+B('BUS-items-no-load', ['C17'], 'bus.py', 'Bus.items',
+  'if not self._loaded_all:\n                self._update_series_cache_iloc(key=NULL_SLICE)\n            yield from self._series.items()', 'yield from self._series.items()', 'B.bus-load', 'Bus.items')
+B('BUS-extract-loc-no-load', ['C17'], 'bus.py', 'Bus._extract_loc',
+  'self._update_series_cache_iloc(key=iloc_key)', 'pass', 'B.bus-load', 'Bus._extract_loc')
+B('BUS-config-iterator', ['C17'], 'bus.py', 'Bus._store_reader',
+  'config=config[label])', 'config=config[labels])', 'I.loop-iterable', '_store_reader')
+B('BUS-evict-no-flag', ['C17'], 'bus.py', 'Bus._update_series_cache_iloc',
+  'self._loaded[idx_remove] = False', 'pass', 'I.bus-lru', '_update_series_cache_iloc')
+B('BUS-evict-gte', ['C17'], 'bus.py', 'Bus._update_series_cache_iloc',
+  'loaded_count > self._max_persist', 'loaded_count >= self._max_persist', 'I.bus-lru', '_update_series_cache_iloc')
+B('BUS-evict-newest', ['C17'], 'bus.py', 'Bus._update_series_cache_iloc',
+  'label_remove = next(iter(self._last_accessed))', 'label_remove = next(reversed(self._last_accessed))', 'I.bus-lru', '_update_series_cache_iloc')
+B('BUS-load-no-count', ['C17'], 'bus.py', 'Bus._update_series_cache_iloc',
+  '                if max_persist_active:\n                    loaded_count += 1', '                pass', 'I.bus-lru', '_update_series_cache_iloc')
+B('BUS-init-no-check', ['C17'], 'bus.py', 'Bus.__init__',
+  'if max_persist is not None and max_persist < self._loaded.sum():', 'if False:', 'I.bus-lru', 'Bus.__init__')
+N('BUS-get-via-loc', ['C17'], 'bus.py', 'Bus.get',
+  'return self.__getitem__(key)', 'return self._extract_loc(key)')
+
 VARIANTS = V
